@@ -1,6 +1,7 @@
 package main
 
 import (
+	"sort"
 	"fmt"
 	"go/types"
 	"regexp"
@@ -182,6 +183,12 @@ func c04Predicate(c *Ctx, ge *GuardEngine, ctors map[string]string) {
 	r := req("tree-exists", "", "call (consensus.ElementAccumulator).%ID%({consensus.ElementAccumulator}, len({consensus.elementLeaf}.StateElement.MerkleProof))", opF, "", "a tree must exist at the proof's height (otherwise a stale root slot could match)")
 	r.Weak = true
 	r.Entry = "consensus.(*ElementAccumulator).containsLeaf"
+	// a helper by any name called with (acc, len(proof)), or (a one-line helper read as its comparison) the bit test itself
+	callForm := mustRe(r.L)
+	bitForm := mustRe(pat("({consensus.ElementAccumulator}.NumLeaves & (const:1 << len({consensus.elementLeaf}.StateElement.MerkleProof)))"))
+	r.LFn = func(a string) bool { return callForm.MatchString(a) || bitForm.MatchString(a) }
+	r.RFn = func(a string) bool { return a == "" || a == "const:0" }
+	r.Ops = []string{"false", "=="}
 	ge.CheckReq(c, "membership-predicate", r, gs)
 	// the comparison must be evaluated only when the tree exists: the false edge returns false
 	// wrappers: classify every method of ElementAccumulator that returns containsLeaf(leafCtor(arg, ...consts))
@@ -293,6 +300,37 @@ func c04Parents(c *Ctx, ge *GuardEngine, ctors map[string]string) {
 		}
 		c.Check(found, "parent-coverage", pth, where, ifElse(found, "membership of "+want+" is checked (unless ephemeral)", "ValidateTransactionElements never checks the Merkle proof of "+want+": a forged element at that position is accepted"))
 	}
+	// "covers" means for every element: no loop of the walk may be left towards acceptance from inside its body
+	if fn := c.P.Func(entry); fn != nil {
+		fns := append([]*ssa.Function{fn}, fn.AnonFuncs...)
+		inFns := map[*ssa.Function]bool{}
+		for _, f := range fns {
+			inFns[f] = true
+		}
+		for _, cf := range cs { // helpers the walk was moved into
+			if cf.Caller != nil && !inFns[cf.Caller] && len(cf.Caller.Blocks) > 0 && cf.Callee != nil && FuncName(cf.Callee) == "(consensus.ElementAccumulator).containsLeaf" {
+				inFns[cf.Caller] = true
+				fns = append(fns, cf.Caller)
+			}
+		}
+		n := 0
+		for _, f := range fns {
+			fi := ge.info(f)
+			var heads []*ssa.BasicBlock
+			for h := range fi.loopBody {
+				heads = append(heads, h)
+			}
+			sort.Slice(heads, func(i, j int) bool { return heads[i].Index < heads[j].Index })
+			{
+				for _, h := range heads {
+					n++
+					why := ge.earlyAcceptingExit(fi, h, nil)
+					c.Check(why == "", "parent-coverage", fmt.Sprintf("walk-complete:%s:loop%d", FuncName(f), n), firstPos(c, h), ifElse(why == "", "the loop runs over every element unless it rejects", why+": the remaining elements' Merkle proofs are never checked"))
+				}
+			}
+		}
+		c.Check(n >= 1, "parent-coverage", "walk-complete:loops", "", fmt.Sprintf("%d loops over transaction elements examined", n))
+	}
 	c.Min("parent-coverage", 5)
 }
 
@@ -353,4 +391,15 @@ func compileAll(ps []string) []*regexp.Regexp {
 		out = append(out, regexp.MustCompile(p))
 	}
 	return out
+}
+
+func firstPos(c *Ctx, h *ssa.BasicBlock) string {
+	for _, b := range append([]*ssa.BasicBlock{h}, h.Succs...) {
+		for _, in := range b.Instrs {
+			if in.Pos().IsValid() {
+				return c.P.Pos(in.Pos())
+			}
+		}
+	}
+	return ""
 }
